@@ -120,6 +120,20 @@ Theorem C03_strategy_extra_queries_invisible :
 Proof. intros. apply (strategy_extra_queries_invisible (inst k p)). apply zquery_pure. Qed.
 Print Assumptions C03_strategy_extra_queries_invisible.
 
+Theorem C03_strategy_over_biqf_extra_queries_invisible :
+  forall (F : Type) (N : Num F) (quant : Z -> list F -> F) (p : bparams) (C W : Type)
+         (wstep : W -> C -> bool * W) (inp : bool -> C -> F) (h : list xop) (s : W * bstate),
+  let sq := squery (b_query quant p) wstep inp in
+  let su := supdate (b_update p) wstep inp in
+  snd (xrun sq su s h) = snd (xrun sq su s (filter x_is_update h)) /\
+  (forall cs, snd (sq s cs) = s).
+Proof.
+  intros. split.
+  - apply (strategy_extra_queries_invisible (b_inst quant p)). apply b_query_pure.
+  - intros cs. apply (strategy_query_restores_state (b_inst quant p)). apply b_query_pure.
+Qed.
+Print Assumptions C03_strategy_over_biqf_extra_queries_invisible.
+
 Theorem C03_strategy_lazy_manager_invisible :
   forall (F : Type) (N : Num F) (k : zkind) (p : zparams) (C W : Type) (wstep : W -> C -> bool * W)
          (inp : bool -> C -> zin) (init : W * zstate) (h : list xop) (s : option (W * zstate)),
